@@ -288,6 +288,13 @@ impl VM {
                     #[cfg(feature = "verif")]
                     crate::verif::probe_const(self.ip, idx);
                     let value = constants[idx as usize];
+                    // Strings can be modified in place, so every evaluation of a
+                    // string literal gets its own copy of the constant
+                    let value = if value.tag() == Type::String {
+                        Object::string(value.as_str(), gc)
+                    } else {
+                        value
+                    };
                     self.push(value);
                 }
                 OpCode::SetGlobal => {
